@@ -18,6 +18,11 @@ RULE = ('histories of 5-40 steps on one single- or multi-phase stream (5 chemica
         'key forms (ID tuple, ellipsis, phase only, (phase, IDs), ID only on a multi-phase stream = documented refusal on write and phase-summed read), zero values in every write and totals set to 0 / set on an empty stream, '
         'multi->single collapse (phase=, one-letter phases=, as_stream, reduce_phases), a third observer (proxy / flow_proxy / phase view / copy) checked and written through, reverse-direction links, copy_flow, '
         'get_data/set_data, temporary() and temporary_phase() contexts, reset_flow in units, and dimension rejection through get_flow/set_flow/set_total_flow/constructor/reset_flow/Indexer.get_data/set_data with near-miss units. '
+        'Round 5: stoichiometric reactions applied to the stream (Reaction / ParallelReaction / SeriesReaction / ReactionSystem, basis mol or wt, built directly or through copy(basis=)), defined on the stream\'s own Chemicals object, '
+        'on a permuted / same-order-clone / superset / subset Chemicals object (the reaction temporarily re-bases the molar indexer and puts the container back), through __call__ / force_reaction / the read-only conversion() and reactant_flux() queries, '
+        'on the stream, a phase view, a proxy/flow proxy/copy observer, the (possibly linked) partner, a multi-phase stream (reactions with phases) and directly on the array views mol/mass/vol; optionally as the very first operation on a '
+        'fresh stream and followed by a write through one view; refused reactions (conversion over 100%, reaction chemicals lacking a flowing chemical) are counted and the views judged afterwards unless negative flows were left; '
+        'observer kind copy(thermo=other package). '
         'non-trivial = >=2 chemicals flowing at some check and >=1 structural change (T/P/phase/phases/link/unlink/package) in the history; distinct = hash of the history')
 MIN_NONTRIVIAL = {'quick': 300, 'thorough': 10000}
 ASSUMPTIONS = ['molar volumes are read from the Chemical objects (Chemical.V(phase, T, P)); the check judges the wiring of the views, not the volume models',
@@ -54,7 +59,11 @@ def required(tier):
             'ctor:units', 'ctor:total', 'locked-chemical', 'idx-units:one', 'idx-units:tuple', 'idx-units:whole', 'arr:item', 'arr:slice', 'arr:setter', 'arr:from-view', 'arr:phase-view',
             'key:tuple', 'key:ellipsis', 'key:phase-only', 'key:id-only-read', 'zero-write', 'total:zero', 'total:on-empty', 'after:collapse', 'phase:solid',
             'observer:proxy', 'observer:flow_proxy', 'observer:view', 'observer:copy', 'observer-write', 'after:rlink', 'after:copy_flow', 'after:set_data', 'after:temporary', 'after:reset_flow',
-            'baddim:get_flow', 'baddim:set_flow', 'baddim:set_total_flow', 'baddim:ctor', 'baddim:idx-get', 'baddim:idx-set', 'baddim:view-get', 'baddim:view-set', 'baddim:near-miss']
+            'baddim:get_flow', 'baddim:set_flow', 'baddim:set_total_flow', 'baddim:ctor', 'baddim:idx-get', 'baddim:idx-set', 'baddim:view-get', 'baddim:view-set', 'baddim:near-miss',
+            # round 5: reactions (temporary re-basing of the molar indexer) and re-based copies
+            'react', 'react:wt', 'react:mol', 'react:other-chemicals', 'react:wt-other-chemicals', 'react:multi-phase', 'react:phase-view', 'react:array', 'react:observer', 'react:partner', 'react:linked', 'react:set',
+            'react:query', 'react:force', 'react:first', 'react:post-write', 'react:chems:perm', 'react:chems:clone', 'react:chems:superset', 'react:chems:subset', 'react:refused:infeasible', 'react:refused:missing-chemical',
+            'observer:copy-thermo']
 
 
 def Vi(chem, phase, T, P):
@@ -109,6 +118,15 @@ def check_views(s, rec, where):
     return ok
 
 
+def gen_react(rng):
+    """round 5: the parameters of one reaction step."""
+    return {'rk': rng.choice(['single', 'single', 'parallel', 'series', 'system']), 'basis': rng.choice(['mol', 'wt']),
+            'chems': rng.choice(['same', 'perm', 'perm', 'clone', 'superset', 'subset']), 'form': rng.choice(['call', 'call', 'call', 'force', 'query']),
+            'target': rng.choice(['stream', 'stream', 'stream', 'phase-view', 'array', 'observer', 'partner']), 'X': round(rng.uniform(0.05, 0.95), 3),
+            'c': [rng.choice([1, 2, 0.5]), rng.choice([1, 0.5, 0.25])], 'made': rng.choice(['ctor', 'ctor', 'copy']), 'infeasible': rng.random() < 0.08,
+            'post': rng.choice([None, 'imol', 'imol', 'imass', 'ivol']), 'view': rng.choice(['mol', 'mass', 'mass', 'vol'])}
+
+
 def gen_case(rng):
     multi = rng.random() < 0.4
     n = len(IDS)
@@ -124,12 +142,14 @@ def gen_case(rng):
     start['ctor_form'] = rng.choice(['kw', 'kw', 'flow'])
     start['ctor_total'] = round(10 ** rng.uniform(-2, 3), 4) if rng.random() < 0.35 else None
     nn = n + 1
+    # round 5: a reaction as the very first operation on the fresh stream (no view was ever built)
+    start['react0'] = dict(gen_react(rng), i=rng.randrange(n), k=rng.randrange(100), v=round(10 ** rng.uniform(-2, 3), 4), target='stream') if rng.random() < 0.12 else None
     steps = []
     for _ in range(rng.randrange(5, 41)):
         t = rng.choices(['imol', 'imass', 'ivol', 'set_flow', 'F', 'set_total', 'T', 'P', 'phase', 'phases', 'link', 'unlink', 'copy_like', 'package', 'scale', 'mix', 'baddim', 'partner-write',
-                         'idx-units', 'arr', 'keyed', 'F0', 'F-empty', 'collapse', 'observer', 'obs-write', 'rlink', 'copy_flow', 'data', 'temporary', 'reset_flow'],
+                         'idx-units', 'arr', 'keyed', 'F0', 'F-empty', 'collapse', 'observer', 'obs-write', 'rlink', 'copy_flow', 'data', 'temporary', 'reset_flow', 'react'],
                         [3, 4, 4, 5, 3, 3, 3, 2, 3, 2, 3, 2, 1, 1, 1, 1, 2, 2,
-                         4, 4, 4, 0.5, 0.3, 0.7, 1.5, 1.5, 1, 1, 0.7, 0.7, 0.7])[0]
+                         4, 4, 4, 0.5, 0.3, 0.7, 1.5, 1.5, 1, 1, 0.7, 0.7, 0.7, 4])[0]
         st = {'t': t, 'i': rng.randrange(n), 'k': rng.randrange(100), 'v': round(10 ** rng.uniform(-2, 3), 4)}
         if start['locked'] and rng.random() < 0.25: st['i'] = n          # the locked chemical
         if t in ('imol', 'imass', 'ivol', 'set_flow', 'idx-units', 'arr', 'keyed', 'obs-write') and rng.random() < 0.1: st['v'] = 0.0     # boundary: the entry must vanish through the view
@@ -163,7 +183,8 @@ def gen_case(rng):
         if t in ('F0', 'F-empty'):
             st['which'] = rng.choice(['F_mol', 'F_mass', 'F_vol', 'set_total']); st['units'] = rng.choice(list(FACT))
         if t == 'collapse': st['form'] = rng.choice(['phase=', 'phases=1', 'as_stream', 'reduce_phases']); st['p'] = rng.choice('lgs')
-        if t == 'observer': st['kind'] = rng.choice(['proxy', 'flow_proxy', 'view', 'copy'])
+        if t == 'observer': st['kind'] = rng.choice(['proxy', 'flow_proxy', 'view', 'copy', 'copy-thermo'])
+        if t == 'react': st.update(gen_react(rng))
         if t == 'obs-write': st['view'] = rng.choice(['imol', 'imass', 'ivol'])
         if t == 'copy_flow': st['form'] = rng.choice(['all', 'one', 'exclude'])
         if t == 'temporary': st['T'] = round(rng.uniform(290, 360), 2)
@@ -259,6 +280,122 @@ def expect_rejected(rec, k, form, units, call, s):
     if units in NEAR_MISS: rec.hit('baddim:near-miss')
 
 
+_rx_chems = {}
+
+
+def rx_chemicals(how, chems, th, th2, locked6, drop):
+    """round 5: the Chemicals object a reaction is defined on, relative to the chemicals of the stream it will be applied to."""
+    if how == 'same': return chems
+    if how == 'perm' or (how == 'superset' and locked6): return th2.chemicals if chems is th.chemicals else th.chemicals
+    if how == 'superset': return thermo_locked(PERM6 if chems is th.chemicals else IDS6).chemicals       # one more chemical (N2) and another order
+    key = (how, tuple(chems.IDs), bool(locked6), drop if how == 'subset' else None)
+    c = _rx_chems.get(key)
+    if c is None:
+        c = tmo.Chemicals([x for x in chems if not (how == 'subset' and x.ID == drop)]); c.compile()
+        _rx_chems[key] = c
+    return c
+
+
+def negative_left(*streams):
+    return any((r < 0).any() for x in streams if x is not None for _, r in rows_of(x))
+
+
+def do_react(st, k, s, partner, obs, obs_kind, linked, CIDS, th, th2, locked6, rec, first=False):
+    """round 5: apply a stoichiometric reaction to the stream (or to a phase view / observer / partner / array view of it).
+
+    A reaction defined on another Chemicals object than the stream's re-bases the stream's molar indexer onto the reaction's chemicals, reacts, and puts the
+    original data container (and its cached mass / volumetric views) back: the view relations are judged afterwards like after any other step.
+    Returns (where, end_case)."""
+    multi = isinstance(s, tmo.MultiStream)
+    n = len(CIDS)
+    a, b, c, d = (CIDS[(st['i'] + m) % n] for m in range(4))
+    basis = st['basis']; how = st['chems']; form = st['form']; target = st['target']; rk = st['rk']
+    ph = s.phases[st['k'] % len(s.phases)] if multi else None
+    if target == 'phase-view' and not multi: target = 'stream'
+    if target == 'observer' and obs is None: target = 'stream'
+    if target == 'array':
+        T = s[ph] if multi else s
+        if how not in ('same', 'clone'): how = 'clone'        # an array carries no chemicals: the reaction has to be defined in the same order
+    elif target == 'phase-view': T = s[ph]
+    elif target == 'observer': T = obs
+    elif target == 'partner': T = partner
+    else: T = s
+    Tm = isinstance(T, tmo.MultiStream)
+    chems = rx_chemicals(how, T.chemicals, th, th2, locked6, d)
+    if how == 'superset' and locked6: how = 'perm'
+    phases = T.phases if Tm else None
+    infeasible = bool(st.get('infeasible')) and form == 'call' and target != 'array'
+    if Tm:
+        p = T.phases[st['k'] % len(T.phases)]; p2 = T.phases[(st['k'] + 1) % len(T.phases)]
+        tag = lambda x, q: f'{x},{q}'
+    else:
+        p = p2 = None
+        tag = lambda x, q: x
+    c1, c2 = st['c']; X = st['X']; X2 = round(1. - X, 3)
+    made = st['made']
+    def R(eq, reactant, x):
+        if made == 'copy':        # defined on the other basis and converted
+            return tmo.Reaction(eq, reactant=reactant, X=x, chemicals=chems, basis='mol' if basis == 'wt' else 'wt', phases=phases).copy(basis=basis)
+        return tmo.Reaction(eq, reactant=reactant, X=x, chemicals=chems, basis=basis, phases=phases)
+    if infeasible: r1 = R(f'{tag(a, p)} + 50 {tag(c, p)} -> {c1} {tag(b, p2)}', a, X)       # needs 50 X c per a: refused (conversion over 100%) unless c is plentiful
+    else: r1 = R(f'{tag(a, p)} -> {c1} {tag(b, p2)} + {c2} {tag(c, p)}', a, X)
+    if rk == 'single': rx = r1
+    elif rk == 'parallel': rx = tmo.ParallelReaction([r1, R(f'{tag(c, p)} -> {c2} {tag(b, p)}', c, X2)])
+    elif rk == 'series': rx = tmo.SeriesReaction([r1, R(f'{tag(b, p2)} -> {c2} {tag(c, p2)}', b, X2)])
+    else: rx = tmo.ReactionSystem(r1, tmo.ParallelReaction([R(f'{tag(b, p2)} -> {c2} {tag(c, p)}', b, X2), R(f'{tag(c, p)} -> {tag(b, p)}', c, 0.5 * X2)]))
+    material = getattr(T, st['view']) if target == 'array' else T
+    label = f'{basis}/{"same-chemicals" if how == "same" else "other-chemicals"}/{target}'        # which other Chemicals object (permuted, clone, superset, subset) is in the reach counters and the witness
+    if target == 'array': label += ':' + st['view']
+    rec.hit('react'); rec.hit('react:' + basis); rec.hit('react:chems:' + how); rec.hit('react:kind:' + rk)
+    if how != 'same':
+        rec.hit('react:other-chemicals')
+        if basis == 'wt' and target != 'array': rec.hit('react:wt-other-chemicals')
+    if Tm: rec.hit('react:multi-phase')
+    if target in ('phase-view', 'array', 'observer', 'partner'): rec.hit('react:' + target)
+    if target == 'observer': rec.hit('react:observer:' + str(obs_kind))
+    if linked: rec.hit('react:linked')
+    if rk != 'single': rec.hit('react:set')
+    if first: rec.hit('react:first')
+    if form == 'query' and not (hasattr(rx, 'conversion') or (hasattr(rx, 'reactant_flux') and target != 'array')): form = 'call'
+    if form != 'call': rec.hit('react:' + form)
+    def apply(material):
+        if form == 'force': rx.force_reaction(material)
+        elif form == 'query' and hasattr(rx, 'conversion'): rx.conversion(material)         # read-only query: re-bases and restores like a reaction
+        elif form == 'query': rx.reactant_flux(material, 0)
+        else: rx(material)
+    if (infeasible or how == 'subset') and target != 'array':
+        # an input the library may refuse (conversion over 100% / the reaction's chemicals lack a chemical that flows): the refusal itself is counted, not judged.
+        # What is judged is the state the refusal leaves behind: the stream still has to satisfy the view relations. It is offered to a copy of the target first so
+        # that the history of the stream under test goes on undisturbed (a refusal that leaves negative flows behind is outside the quantifier and is not judged).
+        probe = T.copy()
+        try: apply(probe)
+        except Exception as e:
+            nm = type(e).__name__
+            if nm == 'InfeasibleRegion' and infeasible: reason = 'infeasible'
+            elif nm.startswith('UndefinedChemical') and how == 'subset': reason = 'missing-chemical'
+            else: raise
+            rec.refuse('reaction refused: ' + reason); rec.hit('react:refused:' + reason)
+            where = f'react-refused:{reason}/{basis}'
+            if negative_left(probe): rec.refuse('refused reaction left negative flows behind: not judged'); return where, False
+            width = {len(r) for _, r in rows_of(probe)}
+            if width != {len(probe.chemicals.MW)}:
+                rec.check(False, 'mass-view', f'shape/after-{where}', f'after a refused reaction ({reason}; reaction chemicals {chems.IDs}) the molar data of the stream has {sorted(width)} columns but its chemicals {probe.chemicals.IDs} has {len(probe.chemicals.MW)}')
+                return where, False
+            check_views(probe, rec, where)
+            return where, False
+    apply(material)
+    where = 'react:' + label
+    if st.get('post'):
+        # a write through one view right after the reaction: it has to be seen by the other views
+        W = T; post = st['post']; idx = getattr(W, post)
+        key = (p, a) if Tm else a
+        idx[key] = st['v']; back = idx[key]
+        rec.check(abs(back - st['v']) <= 1e-12 * st['v'], 'round-trip', f'{post}/after-{where}', f'step {k}: after the reaction wrote {st["v"]} through {post}[{key}] and read back {back}')
+        rec.hit('react:post-write')
+    if T is not s and T is not partner and T is not obs and not check_views(T, rec, where + '(target)'): return where, True
+    return where, False
+
+
 def run_case(case, rec):
     rec.begin_case(case)
     start = case['start']
@@ -275,7 +412,15 @@ def run_case(case, rec):
     obs = None; obs_kind = None
     structural = 0; flowing2 = False
     if start.get('phase') == 's' or 's' in start.get('phases', ''): rec.hit('phase:solid')
-    if not check_views(s, rec, 'construction'): return
+    if start.get('react0'):
+        # round 5: the reaction is the first thing that happens to the fresh stream
+        try:
+            where0, end = do_react(start['react0'], -1, s, partner, None, None, False, CIDS, th, th2, locked6, rec, first=True)
+        except Exception as e:
+            rec.exception('react', e, what=f'the first reaction {start["react0"]} raised {type(e).__name__}: {str(e)[:150]}'); return
+        if end: return
+        if not check_views(s, rec, where0.replace('react', 'react-first', 1)): return
+    elif not check_views(s, rec, 'construction'): return
     for k, st in enumerate(case['steps']):
         t = st['t']
         multi = isinstance(s, tmo.MultiStream)
@@ -525,6 +670,7 @@ def run_case(case, rec):
                 if okind == 'proxy': obs = s.proxy()
                 elif okind == 'flow_proxy': obs = s.flow_proxy()
                 elif okind == 'copy': obs = s.copy()
+                elif okind == 'copy-thermo': obs = s.copy(thermo=th2 if s._thermo is th else th)      # round 5: a copy re-based onto the other property package
                 else: obs = s[ph]
                 obs_kind = okind
                 rec.hit('observer:' + okind)
@@ -590,6 +736,10 @@ def run_case(case, rec):
                     bt = s.get_total_flow(u)
                     rec.check(abs(bt - tot) <= 1e-10 * tot, 'round-trip', f'reset_flow-total/{dim}/{kind}/total', f'step {k}: reset_flow(total_flow={tot}, units={u!r}) has total {bt} {u}')
                 structural += 1; rec.hit('after:reset_flow')
+            elif t == 'react':
+                where, end = do_react(st, k, s, partner, obs, obs_kind, linked or rlinked, CIDS, th, th2, locked6, rec)
+                if end: return
+                structural += 1
         except AttributeError as e:
             if 'undefined composition' in str(e): rec.refuse('undefined composition'); continue
             rec.exception(t, e, what=f'step {k} {st} raised AttributeError: {str(e)[:150]}'); return
@@ -597,8 +747,9 @@ def run_case(case, rec):
             rec.exception(t, e, what=f'step {k} {st} raised {type(e).__name__}: {str(e)[:150]}'); return
         if isinstance(s, tmo.MultiStream): rec.hit('multi-phase')
         if not check_views(s, rec, where): return
-        if not check_views(partner, rec, f'{t}(partner)'): return
-        if obs is not None and not check_views(obs, rec, f'{t}(observer:{obs_kind})'): return
+        lab = where if t == 'react' else t        # round 5: a reaction step names its mechanism (basis / chemicals relation / target, or the refusal) in the keys of all streams checked after it
+        if not check_views(partner, rec, f'{lab}(partner)'): return
+        if obs is not None and not check_views(obs, rec, f'{lab}(observer:{obs_kind})'): return
         e = stream_invariant(s)
         if e: rec.check(False, 'invariant', t, f'step {k}: {e}'); return
         if sum(1 for _, r in rows_of(s) for v in r if v) >= 2: flowing2 = True
